@@ -69,6 +69,8 @@ type Case struct {
 	Stop      *StopSpec               `json:"stop,omitempty"`
 	TimeoutP  int                     `json:"timeoutP,omitempty"` // DAG timeout in polling periods (0 none)
 	Dry       bool                    `json:"dry,omitempty"`
+	// HoldOpen: release nothing until this many attempts are open at once (C15, k=0).
+	HoldOpen int `json:"holdOpen,omitempty"`
 }
 
 // Step returns the spec with the given name.
